@@ -37,6 +37,11 @@ type excCase struct {
 	tag        string
 	prev       [][2]int // (line, col) pairs reported through the same Reporter before this one
 	col0off    int      // with col == 0: byte offset into the line of the reported position
+	// one parsed file holding two logical files: from physical line mapAt on, a `//line y.go:mapTo:1` directive is in
+	// force; other is what reading y.go gives. physLine is the physical line of the reported position and prev holds
+	// physical lines; line / actual are the logical line and the content of the logical file it lies in.
+	other                  string
+	mapAt, mapTo, physLine int
 }
 
 func (c excCase) proto() string {
@@ -73,7 +78,27 @@ func excerptImpl(c excCase) (out string) {
 	}
 	var pos token.Pos
 	var ok bool
-	if c.col == 0 {
+	physOf := func(line, col int) (token.Pos, bool) {
+		if line < 1 || line > f.LineCount() {
+			return 0, false
+		}
+		off := int(f.LineStart(line)) - f.Base() + col - 1
+		if off < 0 || off > len(c.claimed) {
+			return 0, false
+		}
+		return f.Pos(off), true
+	}
+	if c.other != "" {
+		if c.mapAt < 1 || c.mapAt > f.LineCount() {
+			return "skip"
+		}
+		f.AddLineColumnInfo(int(f.LineStart(c.mapAt))-f.Base(), "y.go", c.mapTo, 1)
+		posOf = physOf
+		pos, ok = physOf(c.physLine, c.col)
+		if p := fset.Position(pos); !ok || p.Line != c.line || p.Column != c.col {
+			return "skip"
+		}
+	} else if c.col == 0 {
 		// a //line directive without a column: positions on that line report column 0
 		off := 0
 		if c.line >= 1 && c.line <= f.LineCount() {
@@ -100,6 +125,12 @@ func excerptImpl(c excCase) (out string) {
 		ReadFile: func(name string) ([]byte, error) {
 			if c.unreadable {
 				return nil, fmt.Errorf("unreadable")
+			}
+			if c.other != "" {
+				if name == "y.go" {
+					return []byte(c.other), nil
+				}
+				return []byte(c.claimed), nil
 			}
 			return []byte(c.actual), nil
 		},
@@ -379,6 +410,34 @@ func corrExcerpt(o corrOpts) *res.Summary {
 			}
 			cases = append(cases, c)
 		}
+		// one parsed file, two logical files (a hand-written part, then generated code under `//line y.go:N:1`), one
+		// Reporter, diagnostics in both parts in either order: each excerpt shows the lines of the file its position names
+		for i := 0; i < 30; i++ {
+			nx, ny := 6+r.Intn(6), 12+r.Intn(8)
+			var xs, ys []string
+			for k := 0; k < nx; k++ {
+				xs = append(xs, fmt.Sprintf("x%d %s", k+1, genLine(r, 3+r.Intn(30), 0)))
+			}
+			for k := 0; k < ny; k++ {
+				ys = append(ys, fmt.Sprintf("y%d %s", k+1, genLine(r, 3+r.Intn(30), 1)))
+			}
+			mapAt := 3 + r.Intn(nx-3)
+			mapTo := 1 + r.Intn(ny-(nx-mapAt)-1)
+			c := excCase{claimed: strings.Join(xs, "\n") + "\n", other: strings.Join(ys, "\n") + "\n", mapAt: mapAt, mapTo: mapTo, col: 1 + r.Intn(3), code: "IMM01", msg: "two", tag: "two-logical-files"}
+			plain, mapped := 1+r.Intn(mapAt-1), mapAt+r.Intn(nx-mapAt+1)
+			if mapped > nx {
+				mapped = nx
+			}
+			if i%2 == 0 {
+				// first a diagnostic in the hand-written part, then the one under test in the generated part
+				c.prev = [][2]int{{plain, 1}}
+				c.physLine, c.line, c.actual = mapped, mapped-mapAt+mapTo, c.other
+			} else {
+				c.prev = [][2]int{{mapped, 1}}
+				c.physLine, c.line, c.actual = plain, plain, c.claimed
+			}
+			cases = append(cases, c)
+		}
 		// column 0 (generated code: //line directive without a column)
 		for i := 0; i < 20; i++ {
 			n := []int{0, 1, 5, 40, M - 1, M, M + 1, 2*M + 3}[i%8]
@@ -496,6 +555,9 @@ func corrExcerpt(o corrOpts) *res.Summary {
 			}
 			input += " prev=" + strings.Join(ps, ",")
 		}
+		if c.other != "" {
+			input += fmt.Sprintf(" twofiles=%s,%s,%d,%d,%d", mdl.Hex(c.claimed), mdl.Hex(c.other), c.mapAt, c.mapTo, c.physLine)
+		}
 		d := res.Disagreement{Kind: "impl-vs-model", Input: input, Impl: fmt.Sprintf("%q", impl), Model: fmt.Sprintf("%q", model), Clause: "GGV.Model.render"}
 		if strings.HasPrefix(impl, "panic:") {
 			d.Kind = "panic"
@@ -513,12 +575,26 @@ func corrExcerpt(o corrOpts) *res.Summary {
 	return sum
 }
 
-func excerptParse(line string) (excCase, error) {
+func excerptParse(line string) (c excCase, err error) {
 	f := strings.Fields(line)
 	if len(f) >= 2 && f[0] == "excerpt" && f[1] == "render" {
 		f = f[2:]
 	}
-	c := excCase{tag: "replay"}
+	c = excCase{tag: "replay"}
+	two := ""
+	if len(f) >= 6 && strings.HasPrefix(f[len(f)-1], "twofiles=") {
+		two = f[len(f)-1][len("twofiles="):]
+		f = f[:len(f)-1]
+	}
+	defer func() {
+		if p := strings.Split(two, ","); len(p) == 5 {
+			c.claimed, _ = mdl.Unhex(p[0])
+			c.other, _ = mdl.Unhex(p[1])
+			c.mapAt, _ = strconv.Atoi(p[2])
+			c.mapTo, _ = strconv.Atoi(p[3])
+			c.physLine, _ = strconv.Atoi(p[4])
+		}
+	}()
 	if len(f) == 6 && strings.HasPrefix(f[5], "prev=") {
 		for _, pc := range strings.Split(f[5][5:], ",") {
 			var l, k int
